@@ -330,6 +330,75 @@ func damageInputs(ps []prog, bytePrefix bool) (ctl, dmg []*input) {
 	return
 }
 
+// renderInputs: erroneous constructs written over several lines (the label of the diagnostic
+// spans lines), at three nesting depths, indented with six indentation units. They always go
+// through the real binary: what is judged is the printing of the diagnostic.
+func renderInputs() []*input {
+	head := "import \"std/io\";\ntype Point struct { .X: i32, .Y: i32 };\ntype Color enum { Red, Green };\nfn add(a: i32, b: i32) -> i32 { return a + b; }\nfn take(a: i32, b: i32) { }\n"
+	cons := []struct {
+		name  string
+		lines []string // a leading '>' marks a continuation line (one unit deeper)
+	}{
+		{"missing-field", []string{"let p: Point = {", ">.X = 1,", "};"}},
+		{"unknown-field", []string{"let q := {", ">.X = 1,", ">.Z = 2", "} as Point;"}},
+		{"arg-type", []string{"let s: i32 = add(", ">1,", ">\"two\"", ");"}},
+		{"operand-type", []string{"let t: i32 = 1 +", ">\"x\";"}},
+		{"arg-count", []string{"take(", ">1", ");"}},
+		{"elem-type", []string{"let arr: [2]i32 = [", ">1,", ">\"b\"", "];"}},
+		{"cond-type", []string{"if 1 +", ">2 {", "}"}},
+		{"match-arms", []string{"let c := Color::Red;", "match c {", ">Color::Red => { }", "}"}},
+		{"unknown-type", []string{"let u: Missing = {", ">.A = 1", "};"}},
+		{"return-type", []string{"return {", ">.X = 1,", ">.Y = 2", "} as Point;"}},
+	}
+	units := []struct{ name, u string }{{"sp4", "    "}, {"tab", "\t"}, {"tab2", "\t\t"}, {"tab3", "\t\t\t"}, {"sp-tab", " \t"}, {"tab-sp", "\t "}}
+	var out []*input
+	for _, cn := range cons {
+		for depth := 1; depth <= 3; depth++ {
+			for _, un := range units {
+				var b strings.Builder
+				b.WriteString(head + "fn main() {\n")
+				for d := 1; d < depth; d++ {
+					b.WriteString(strings.Repeat(un.u, d) + "if true {\n")
+				}
+				for _, l := range cn.lines {
+					ind := depth
+					if strings.HasPrefix(l, ">") {
+						ind, l = depth+1, l[1:]
+					}
+					b.WriteString(strings.Repeat(un.u, ind) + l + "\n")
+				}
+				for d := depth - 1; d >= 1; d-- {
+					b.WriteString(strings.Repeat(un.u, d) + "}\n")
+				}
+				b.WriteString("}\n")
+				out = append(out, &input{id: fmt.Sprintf("render/%s/depth%d/%s", cn.name, depth, un.name), fam: "render", entry: "main.fer", files: map[string]string{"main.fer": b.String()}, small: true})
+			}
+		}
+	}
+	return out
+}
+
+// doubleDamage: one token deleted, and the file cut off 1..window tokens later (error recovery
+// that looks ahead for a synchronising token meets the end of the file instead).
+func doubleDamage(ps []prog, window int) (dmg []*input) {
+	for _, p := range ps {
+		if len(p.files) != 1 {
+			continue
+		}
+		for fn, src := range p.files {
+			lead, ts := split(src)
+			for i := range ts {
+				d := append(append([]tok{}, ts[:i]...), ts[i+1:]...)
+				for w := 1; w <= window && i+w <= len(d); w++ {
+					dmg = append(dmg, &input{id: fmt.Sprintf("dmg2/%s/%s/del%d+prefix%d", p.name, fn, i, i+w), fam: "dmg", entry: "main.fer",
+						files: map[string]string{fn: join(lead, d[:i+w])}, small: true})
+				}
+			}
+		}
+	}
+	return
+}
+
 // ---- (iv) project layouts
 
 var states = []string{"V", "M", "X", "E", "D", "S", "N", "U", "T", "Z", "W"}
@@ -750,7 +819,7 @@ func (k *chk) runAll(pool *fe.Pool, mode string, n int, get func(i int) *input, 
 
 func Run(c *vl.Ctx) {
 	quick := c.Quick()
-	budget, procReserve := 112*time.Second, 40*time.Second
+	budget, procReserve := 180*time.Second, 50*time.Second
 	if !quick {
 		budget, procReserve = 19*time.Minute, 4*time.Minute
 	}
@@ -796,6 +865,8 @@ func Run(c *vl.Ctx) {
 	}
 	litIn := litInputs(litLen)
 	manyIn := manyDiagInputs()
+	renderIn := renderInputs()
+	dmg2 := doubleDamage(corpus, map[bool]int{true: 6, false: 12}[quick])
 	projIn := projectInputs(!quick)
 	var canary []*input
 	for fr := range frames {
@@ -810,7 +881,7 @@ func Run(c *vl.Ctx) {
 	for _, in := range ctl {
 		canary = append(canary, next(in))
 	}
-	for _, l := range [][]*input{projIn, dmg, bytesIn, manyIn, litIn} {
+	for _, l := range [][]*input{projIn, renderIn, dmg, bytesIn, manyIn, litIn, dmg2} {
 		for _, in := range l {
 			next(in)
 		}
@@ -822,7 +893,7 @@ func Run(c *vl.Ctx) {
 		for _, id := range strings.Split(os.Getenv("VERIF_C13_IDS"), ",") {
 			want[id] = true
 		}
-		for _, l := range [][]*input{canary, projIn, dmg, bytesIn, manyIn, litIn} {
+		for _, l := range [][]*input{canary, projIn, renderIn, dmg, bytesIn, manyIn, litIn, dmg2} {
 			for _, in := range l {
 				if want[in.id] {
 					run.WriteFiles(filepath.Join(d, strings.ReplaceAll(in.id, "/", "_")), in.replay())
@@ -893,7 +964,9 @@ func Run(c *vl.Ctx) {
 	}
 	// ---- stage 1: projects (check and wasm), damage, byte strings
 	stage("proj/check", "check", projIn)
+	stage("render/check", "check", renderIn)
 	stage("dmg/check", "check", dmg)
+	stage("dmg2/check", "check", dmg2)
 	stage("byte/check", "check", bytesIn)
 	stage("many/check", "check", manyIn)
 	stage("lit/check", "check", litIn)
@@ -944,7 +1017,7 @@ func Run(c *vl.Ctx) {
 	}
 
 	// ---- stage 3: process-level oracle through the real binary
-	k.procStage(<-rnCh, c.Start.Add(budget), projIn, ctl, note)
+	k.procStage(<-rnCh, c.Start.Add(budget), projIn, append(append([]*input{}, ctl...), renderIn...), note)
 
 	// ---- report: first 3 inputs per failure class are failures, the rest is counted
 	sort.SliceStable(k.fails, func(i, j int) bool {
